@@ -7,6 +7,7 @@ import z3
 from vlib import build, common, smt, wrun, envstubs, wpath
 from vlib.llsym import Module, Exec, Ptr, SymStr, Inconclusive
 from vlib.wobj import WObj
+from vlib import wobj
 from checks import wcommon, C01
 
 FUNCS = C01.FUNCS + ['digital_rf_handle_metadata', 'recreate_properties_file (python)']
@@ -58,8 +59,8 @@ def props_create(rep):
             nm_ = fc[0][1].text() if fc[0][1].is_concrete() else ''
             ren = [e for e in ex.events if e[0] == 'rename']
             # either created directly (exclusive) under the final name, or staged under tmp. and renamed into place after the close
-            vals.append((nm_ == '/data/ch/drf_properties.h5' and fc[0][2] == 4) or
-                        (nm_ == '/data/ch/tmp.drf_properties.h5' and len(ren) == 1 and ren[0][1].text() == nm_ and ren[0][2].text() == '/data/ch/drf_properties.h5'))
+            vals.append((nm_ == wobj.CHDIR + '/drf_properties.h5' and fc[0][2] == 4) or
+                        (nm_ == wobj.CHDIR + '/tmp.drf_properties.h5' and len(ren) == 1 and ren[0][1].text() == nm_ and ren[0][2].text() == wobj.CHDIR + '/drf_properties.h5'))
         res.append((ok, ok_names, all(vals) if vals else False, names))
 
     ex = Exec(mod, stubs)
